@@ -69,6 +69,7 @@ def generate(seed, tier):
             "steps": r.choice([0, 1, 1, 2, 3]),
             "sub": P.s64(r),
             "mode": r.choice(["honest", "honest", "rare"]),
+            "positional": r.random() < 0.3,
         }
         if r.random() < 0.3:
             op["init_rows"] = r.choice([1, 2, 3, 5])
@@ -303,7 +304,10 @@ def execute(plan):
                         system = sys_cache.get(tuple(names)) or sys_cache.setdefault(tuple(names), System(*obs))
                         res = system.statistics(state, **kwargs)
                     else:
-                        res = {obs[0].name: obs[0].statistics(state, **kwargs)}
+                        if op.get("positional"):
+                            res = {obs[0].name: obs[0].statistics(state, ns, nc, op["burn_in"], op["steps"], init, op.get("overwrite", False))}
+                        else:
+                            res = {obs[0].name: obs[0].statistics(state, **kwargs)}
                 except Exception as exc:  # noqa: BLE001
                     run.lib_exception(exc, f"{op['op']}", num_samples=ns, num_chains=nc, chains=chains, obs=names)
             rng.check_global()
